@@ -288,6 +288,32 @@ pub fn scenario(idx: usize, seed: u64, phase_ms: u64) -> ScenarioResult {
         if got != burst {
             problems.push(format!("a fresh peer had only {got} of its first {burst} requests admitted while other peers were exhausted"));
         }
+        // ---- per-peer means per IDENTITY: a peer whose id differs from an exhausted peer's in a
+        // single byte (the last, one in the middle, the ninth, the second) still has its own quota
+        for pos in [31usize, 17, 8, 1] {
+            let mut svc4 = svc.clone();
+            let got: u32 = rt.block_on(async move {
+                // exhaust peer 0 right now ...
+                for i in 0..burst + 2 {
+                    let _ = svc4.ready().await.unwrap().call(req(2_000_000 + i as u64, 0)).await;
+                }
+                // ... and let its near-twin use its own first burst at once
+                let mut twin = pid(0);
+                twin.0[pos] ^= 0x01;
+                let mut ok = 0;
+                for i in 0..burst {
+                    let r = Request::new(Bytes::new()).with_header("id", (3_000_000 + i as u64).to_string()).with_extension(twin);
+                    if svc4.ready().await.unwrap().call(r).await.is_ok() {
+                        ok += 1;
+                    }
+                }
+                ok
+            });
+            n_fresh += 1;
+            if got != burst {
+                problems.push(format!("a peer whose identity differs from an exhausted peer's only in byte {pos} had {got} of its first {burst} requests admitted: quotas are not kept per identity"));
+            }
+        }
     }
     drop(rt);
     let sample = json!({"scenario": idx, "seed": seed, "tau_ms": tau.as_millis() as u64, "burst": burst,
